@@ -82,7 +82,10 @@ func findPropMiddleware(next _PropCallMiddlewareHandler) _PropCallMiddlewareHand
 		// get prop of recv
 		prop, isMissing := evalProp(propName, recv)
 		if err, ok := prop.(*object.PanErr); ok {
-			return err
+			// NOTE: copy err object because prop may be a shared one (like `Either.A`),
+			// otherwise stacktrace of the shared object is overwritten
+			copied := *err
+			return &copied
 		}
 
 		// prepend prop name to arg if _missing is called
